@@ -24,7 +24,7 @@ import (
 func init() {
 	Registry["C16"] = &Check{
 		Scenarios: c16Scenarios,
-		Rule: "complete grid: hop-by-hop and end-to-end ids from {0,1,2^31,2^32-1}^2 x all 256 command flag bytes x every (application, command) of the embedded dictionaries x result code {0 (none asked), 2001, 5012, 2^32-1} through Message.Answer; a second CER on a connection whose handshake has completed (if it is answered, the answer must mirror it); the state machine's success CEA, each failure CEA (5010, 5017, 5012, and 5012 for a CER that cannot be unmarshalled because the connection's dictionary lacks an AVP the CER struct names) and DWA for the same id grid over an in-memory transport; the same requests arriving on SCTP streams {0,1,5,15} of the in-memory multistream backend (and on a stream-less transport), answered by a handler through Answer().WriteTo (answers of ordinary size and of 65400..200000 octets, around and beyond 64 KiB; requests with one AVP and requests that consist of their header only) and by the state machine: the backend must record the answer on the request's stream, also when the answer to a request is written later, while a request from another stream is being handled (all 16 stream pairs), also when the first 1 or 2 write attempts of that answer fail with a temporary error and are retried (WriteToWithRetry); and two application goroutines answering requests of different streams concurrently (every schedule up to preemption bound 2, thorough 3), on an association attached with NewConn and on one accepted by a Server with ReadTimeout and WriteTimeout set.",
+		Rule: "requests no handler is registered for (STR, CCR, RAR, an undefined command; P bit set / clear; T bit) on a bare ServeMux and on a state machine after the handshake: whatever the library sends back must mirror the request; complete grid: hop-by-hop and end-to-end ids from {0,1,2^31,2^32-1}^2 x all 256 command flag bytes x every (application, command) of the embedded dictionaries x result code {0 (none asked), 2001, 5012, 2^32-1} through Message.Answer; a second CER on a connection whose handshake has completed (if it is answered, the answer must mirror it); the state machine's success CEA, each failure CEA (5010, 5017, 5012, and 5012 for a CER that cannot be unmarshalled because the connection's dictionary lacks an AVP the CER struct names) and DWA for the same id grid over an in-memory transport; the same requests arriving on SCTP streams {0,1,5,15} of the in-memory multistream backend (and on a stream-less transport), answered by a handler through Answer().WriteTo (answers of ordinary size and of 65400..200000 octets, around and beyond 64 KiB; requests with one AVP and requests that consist of their header only) and by the state machine: the backend must record the answer on the request's stream, also when the answer to a request is written later, while a request from another stream is being handled (all 16 stream pairs), also when the first 1 or 2 write attempts of that answer fail with a temporary error and are retried (WriteToWithRetry); and two application goroutines answering requests of different streams concurrently (every schedule up to preemption bound 2, thorough 3), on an association attached with NewConn and on one accepted by a Server with ReadTimeout and WriteTimeout set.",
 		Assume: []string{"single default schedule per exchange", "in-memory SCTP backend (hook diam/sctp_verif.go)"},
 		QuickBudget: 120, ThoroughBudget: 900,
 	}
@@ -43,6 +43,7 @@ func c16Scenarios(tier string) []*Scenario {
 		out = append(out, &Scenario{Name: "state-machine/" + kind, Seq: func(r *SeqResult) { c16SM(r, kind) }})
 	}
 	out = append(out, &Scenario{Name: "state-machine/second-cer", Seq: c16SecondCER})
+	out = append(out, &Scenario{Name: "unhandled-requests", Seq: c16Unhandled})
 	out = append(out, &Scenario{Name: "streams/handler-answer", Seq: c16Streams})
 	out = append(out, &Scenario{Name: "streams/deferred-answer", Seq: c16Deferred})
 	cb := 2
@@ -598,5 +599,106 @@ func c16SecondCER(r *SeqResult) {
 				}
 			}
 		}
+	}
+}
+
+// c16Unhandled: requests nobody registered a handler for - on a bare ServeMux that serves another
+// command only, and on a state machine after the handshake. The statement does not ask for an
+// answer to them; if the library does send one, it is an answer the library built from a request
+// and must mirror it like any other.
+func c16Unhandled(r *SeqResult) {
+	for _, mode := range []string{"mux", "state-machine"} {
+		for _, cmd := range [][2]uint32{{275, 0}, {272, 4}, {258, 0}, {8388608, 7}} {
+			for _, flags := range []uint8{0x80, 0xC0, 0xD0, 0x90} {
+				for _, hbh := range c16IDs {
+					mode, cmd, flags, hbh := mode, cmd, flags, hbh
+					var conn *vnet.Conn
+					skip := 0
+					s := vs.Run(nil, false, 5*time.Second, false, func() {
+						conn = vnet.NewConn("U")
+						conn.Pieces = 1
+						var h diam.Handler
+						if mode == "mux" {
+							mux := diam.NewServeMux()
+							mux.HandleFunc("DWR", func(c diam.Conn, m *diam.Message) { m.Answer(2001).WriteTo(c) })
+							vs.GoNamed("reports", true, func() {
+								for {
+									if _, ok := mux.ErrorReports().Recv2(); !ok {
+										return
+									}
+								}
+							})
+							h = mux
+						} else {
+							mach := sm.New(c16Settings())
+							vs.GoNamed("reports", true, func() {
+								for {
+									if _, ok := mach.ErrorReports().Recv2(); !ok {
+										return
+									}
+								}
+							})
+							h = mach
+						}
+						if _, err := diam.NewConn(conn, "peer", h, dict.Default); err != nil {
+							return
+						}
+						p := &Peer{C: conn}
+						if mode == "state-machine" {
+							conn.Deliver(c16Request("cer-ok", 7, 8, 0x80))
+							if p.Next() == nil {
+								return
+							}
+							skip = 1
+						}
+						conn.Deliver(refcodec.EncodeMessage(refcodec.Header{Version: 1, Flags: flags, Code: cmd[0], App: cmd[1], HbH: hbh, E2E: 0x55}, []refcodec.Node{ident(264, "c"), ident(296, "r")}))
+						// end marker: a DWR, which both serve
+						conn.Deliver(refcodec.EncodeMessage(refcodec.Header{Version: 1, Flags: 0x80, Code: 280, HbH: 0x7777, E2E: 0x7777}, []refcodec.Node{ident(264, "c"), ident(296, "r")}))
+						for {
+							m := p.Next()
+							if m == nil || m.Hdr.HbH == 0x7777 {
+								break
+							}
+						}
+						conn.PeerEOF()
+					})
+					s.Teardown()
+					r.Cases++
+					r.Distinct++
+					if r.Violation != "" {
+						continue
+					}
+					msgs, _ := refcodec.SplitStream(conn.Out)
+					v := ""
+					for i, raw := range msgs {
+						if i < skip {
+							continue
+						}
+						a, _ := refcodec.DecodeHeader(raw)
+						if a.Code == 280 && a.HbH == 0x7777 {
+							continue
+						}
+						switch {
+						case a.Flags&0x80 != 0:
+							v = fmt.Sprintf("the library sent a request (command %d) of its own", a.Code)
+						case a.Code != cmd[0] || a.App != cmd[1] || a.HbH != hbh || a.E2E != 0x55:
+							v = fmt.Sprintf("answer header {code %d app %d ids %#x/%#x} does not mirror the request {code %d app %d ids %#x/0x55}", a.Code, a.App, a.HbH, a.E2E, cmd[0], cmd[1], hbh)
+						case a.Flags&0x40 != flags&0x40:
+							v = fmt.Sprintf("request flags %#x, answer flags %#x: the proxiable bit changed", flags, a.Flags)
+						}
+					}
+					if p := s.Panics(); len(p) > 0 && v == "" {
+						v = "panic: " + strings.Join(p, "; ")
+					}
+					if v != "" {
+						r.Violation = fmt.Sprintf("%s, request for command %d (application %d) with flags %#x and hop-by-hop id %#x that no handler is registered for: %s", mode, cmd[0], cmd[1], flags, hbh, v)
+						r.Case = map[string]interface{}{"mode": mode, "cmd": cmd, "flags": flags, "hbh": hbh}
+					}
+				}
+			}
+		}
+	}
+	if r.Sample == "" {
+		r.Sample = "unhandled STR / CCR / RAR / undefined command, P bit set and clear, on a bare ServeMux and on a state machine after the handshake: whatever comes back must mirror the request"
 	}
 }
